@@ -308,6 +308,9 @@ UUID_OK = '0f0e0d0c-0b0a-0908-0706-050403020100'
 SEG_KINDS = ['a', 'b', 'v.1', '{p}', '{q}', '{p:int}', '{p:int(2)}', '{p:int(min=5)}', '{p:uuid}',
              '{p}-{q}', 'x{p}', '{p}.{q:int}', '{r:path}']
 CORE_KINDS = ['a', 'b', '{p}', '{q}', '{p:int}', '{p}-{q}', 'x{p}', '{r:path}']
+# two multi-field segments with converters on ONE route (distinct field names), converter bounds of zero
+EXTRA = ['{s:int}_{t}', '{p}.{q:int}/{s:int}_{t}', '{p}.{q:int}/{s:int}_{t}/a', '{p}.{q:int}/{s}', 'x{p}/{s:int}_{t}',
+         '{p:int(min=0)}', '{p:int(max=0)}', 'a/{p:int(min=0)}', '{p:int(min=0)}-{q}', '{p:int(min=0, max=0)}']
 REJECTED = ['{p}/{p}', '{1x}', '{class}', '{p:nope}', '{p:int(x=1)}', 'a b', '{p:}', 'new/{r:path}/c', 'n2/{s}{r:path}',
             '{z}/{r:path}/c', 'a/{p}{r:path}', '{p}/n3/{r:path}/{q}']
 
@@ -321,7 +324,7 @@ def reps_for_segment(seg):
     if len(pieces) == 1:
         conv = flds[0][2]
         if conv == 'int':
-            return ['7', '07', '12', '-7', '+7', ' 7', '1_0', 'x']
+            return ['7', '07', '12', '-7', '+7', ' 7', '1_0', 'x', '0', '-1']
         if conv == 'uuid':
             return [UUID_OK, UUID_OK[:-1] + 'g']
         if conv == 'path':
@@ -466,7 +469,7 @@ def templates(kinds, depth):
 
 
 def gen_histories(tier, seed):
-    full = templates(SEG_KINDS, 2) + REJECTED
+    full = templates(SEG_KINDS, 2) + EXTRA + REJECTED
     core = templates(CORE_KINDS, 2)[:0] + CORE_KINDS + ['a/{p}', 'a/b', '{p}/a', '{p}/{q}', 'a/{q}', '{p}/{q:int}', 'a/{r:path}',
                                                        '{p}/{r:path}', 'x{p}/a', '{p}-{q}/a', 'b/{p:int}', 'a/{p:int}',
                                                        'new/{r:path}/c', '{z}/{r:path}/c', 'a/{p}{r:path}', '{p}/{p}', 'a b']
